@@ -1026,7 +1026,7 @@ impl LanguageHooks for OldeEclHooks {
                 ScalarType::Float => vec![
                     R(10004), R(10005), R(10006), R(10007), // F0-F3
                     R(10008), R(10009), R(10010), R(10011), // F4-F7
-                    R(10072), R(10074),                     // F8-F9
+                    R(10072), R(10073),                     // F8-F9
                     //R(10033), R(10034), R(10035), R(10036), // PARAM_R-PARAM_N
                 ],
                 ScalarType::String => vec![],
